@@ -82,6 +82,7 @@ const (
 	OILt
 	OILe
 	OBv2Int // unsigned value of a bit-vector as an Int (expanded by the Int translation)
+	OBv2IntS
 	OUF
 )
 
@@ -921,6 +922,14 @@ func Bv2Int(a *Term) *Term {
 	return mk(OBv2Int, IntSort, a)
 }
 
+// Bv2IntS is the two's-complement (signed) value of a bit-vector as an Int.
+func Bv2IntS(a *Term) *Term {
+	if a.IsConst() {
+		return IntC(toSigned(a.val, a.sort.W))
+	}
+	return mk(OBv2IntS, IntSort, a)
+}
+
 // ---------- traversal / printing ----------
 
 // topo returns the sub-DAG of the roots in dependency order.
@@ -1225,6 +1234,8 @@ func rebuild(n *Term, a []*Term) *Term {
 		return ILe(a[0], a[1])
 	case OBv2Int:
 		return Bv2Int(a[0])
+	case OBv2IntS:
+		return Bv2IntS(a[0])
 	case OUF:
 		return UF(n.name, n.sort, a...)
 	}
